@@ -1,7 +1,7 @@
 SPECIFICATION Spec
 CONSTANTS
-  MaxCalls = 4
-  MaxIdx = 4
+  MaxCalls = 3
+  MaxIdx = 2
   MaxTerm = 2
   MaxCut = 1
   WithCrash = FALSE
